@@ -155,7 +155,16 @@ pub fn suite(out: &mut Out, seed: u64, count: u64) {
     for i in 0..count {
         let mut r = r0.fork();
         out.case(&format!("lim{i}"));
-        let ec = rand_model(&mut r);
+        // the real `Model` validates before it searches (zero-capable divisors, duplicate
+        // all-different variables, operand counts …): validation is C17's subject, the limits model
+        // starts after it, so only models the validator accepts are used here
+        let mut ec = rand_model(&mut r);
+        let mut tries = 0;
+        while guarded(|| build_model(&ec, None).0.validate().is_ok()) != Some(true) && tries < 50 {
+            out.stat("limit.rejected-by-validation");
+            ec = rand_model(&mut r);
+            tries += 1;
+        }
         if out.samples.len() < 3 {
             out.samples.push(ec.kinds.iter().map(|k| k.tokens()).collect::<Vec<_>>().join(" ; "));
         }
